@@ -339,7 +339,7 @@ Theorem C12_source_cs_read_full : forall rf rp fo po k sx m h, Forall byte sx ->
   exists f0, forall f, (f0 <= f)%nat -> exists st fin,
     callC prog_env f prog_sbdf_cs_read [VPtr rf fo; VPtr rp po] m k sx h = OReturn (VInt st) fin /\ prefix_of m (inb fin) /\
     ((st = SBDF_OK /\ Imp.lookup "*out" (vars fin) = Some (VCell (List.length h) 0) /\
-        (exists s1 va s2 v s3 s', sec_expect SBDF_COLUMNSLICE_SECTIONID sx = Ok (tt, s1) /\ Va.va_read false None s1 = Ok (va, s2) /\ read_int32 false s2 = Ok (v, s3) /\ 0 <= v /\
+        (exists s1 va s2 v s3 s', sec_expect SBDF_COLUMNSLICE_SECTIONID sx = Ok (tt, s1) /\ Va.va_read false None s1 = Ok (va, s2) /\ read_int32 false s2 = Ok (v, s3) /\ 0 <= v <= 134217727 /\
                                   props_end (Z.to_nat v) s3 = Some s' /\ Imp.lookup strm_var (vars fin) = Some (VBytes s')) /\
         exists hnew, Imp.lookup cells_var (vars fin) = Some (VHeap (h ++ hnew)) /\ (1 <= List.length hnew)%nat /\
           forall k' s', exists f1, forall g, (f1 <= g)%nat -> exists fin2,
